@@ -18,7 +18,7 @@ RULE = ('cases = seeded random histories of 1..40 transfers around one stack S (
         'that transfers overlap; then 3.5 s of quiet and the capacity probe: J1939-22 = 8 RTS/CTS + 4 BAM submitted at one instant must all be '
         'accepted, the 9th/5th refused without a frame, all 12 delivered; J1939-21 = every (SA,DA) pair accepts at once, a second call on a busy '
         'pair is refused, and is accepted again after completion; during the history send_pgn may return False only while the bus log shows the '
-        'capacity in use; FD pool invariant (free slots + live own sessions = 8/4) asserted after every DLL entry point; non-trivial = history '
+        'capacity in use; FD pool invariant (free slots + live own sessions = 8/4) asserted after every DLL entry point; in a third of the cases the stack\'s job thread is additionally pre-empted at random source lines (0.2..2 ms holds); non-trivial = history '
         'contained >=1 failed transfer and the probe ran; distinct = layer + multiset of step kinds')
 ASSUMPTIONS = ['"in progress" is derived from the bus log: session open until its terminal frame, else last activity + the state\'s time-out + 50 ms',
                'the FD pools are read through private attributes; if absent the invariant is reported not-observed and the probe decides alone']
@@ -208,13 +208,15 @@ class Peer(ScriptNode):
             self.sim.after(t + 0.012, self.send, C.make_id(7, 0, C.PF_FD_TP_CM, 255, RA), C.fdcm_eoms(ses, len(pay), pgn), True)
 
 
-def install_pool_invariant(node, viol, counter, layer):
+def install_pool_invariant(node, viol, counter, layer, holding=(0,)):
     """FD: after every DLL entry point, used slots == sessions of the stack's own live send buffers"""
     dll = node.dll
     if getattr(dll, '_J1939_22__rts_cts_session_list', None) is None or getattr(dll, '_snd_buffer', None) is None:
         return False
 
     def check(where):
+        if holding[0]:
+            return           # the job thread is suspended part-way through a pass: the invariant is only required at quiescent points
         counter[0] += 1
         rts = dll._J1939_22__rts_cts_session_list
         bam = dll._J1939_22__bam_session_list
@@ -249,7 +251,34 @@ def run_case(case):
     W = World(case['seed'], layer, (0.0001, 0.002))
     sim = W.sim
     viol = M.Violations()
+    # in a third of the cases the job thread of S is pre-empted at random source lines (held 0.2..2 ms of virtual time while reception goes on)
+    preempt = rng.random() < 0.33
+    holds = [0]
+    holding = [0]        # > 0 while the job thread is parked in the middle of a pass (its bookkeeping may legitimately be half done)
+    pre_on = [True]
+    if preempt:
+        import os
+        from vt.world import REPO
+        jdir = os.path.realpath(os.path.join(REPO, 'j1939')) + os.sep
+        prng = random.Random(case['seed'] ^ 0xABCDEF)
+
+        def local(frame, event, arg):
+            if event == 'line' and pre_on[0] and prng.random() < 0.004:
+                holds[0] += 1
+                holding[0] += 1
+                try:
+                    sim.block_current(until=sim.now + prng.choice([0.0002, 0.001, 0.002]), jitter=False)
+                finally:
+                    holding[0] -= 1
+            return local
+
+        def tracer(frame, event, arg):
+            if event != 'call' or not frame.f_code.co_filename.startswith(jdir):
+                return None
+            return local
+        sim.trace_hook = tracer
     S = W.stack('S', max_cmdt_packets=rng.choice([1, 2, 255]))
+    sim.trace_hook = None
     P = W.stack('P', max_cmdt_packets=rng.choice([1, 3, 255]))
     if rng.random() < 0.3:
         S.ecu.add_timer(rng.choice([0.01, 0.4, 0.9, 2.0]), lambda c: True)                  # unrelated periodic application timer
@@ -261,10 +290,10 @@ def run_case(case):
     W.listen_ca(pc, 'P')
     R = Peer(W.bus, sim, rng, fd)
     inv_count = [0]
-    inv_ok = install_pool_invariant(S, viol, inv_count, layer) if fd else False
+    inv_ok = install_pool_invariant(S, viol, inv_count, layer, holding) if fd else False
     W.run(0.01)
 
-    obs = dict(pool_not_observed=1 if (fd and not inv_ok) else 0, history_steps=0, failed_transfers=0, probe_transfers_delivered=0, probe_refusals_checked=0, pool_invariant_checks=0,
+    obs = dict(pool_not_observed=1 if (fd and not inv_ok) else 0, preempted_cases=1 if preempt else 0, history_steps=0, failed_transfers=0, probe_transfers_delivered=0, probe_refusals_checked=0, pool_invariant_checks=0,
                inbound_odd_sessions=0, refused_during_history=0)
     steps = []
     sends = []       # dict(t, sa, da, mode, ret)
@@ -340,6 +369,7 @@ def run_case(case):
             sim.at(t, R.bam, ses, [rng.randrange(256) for _ in range(small())], 0xFEF0, comp)
         obs['history_steps'] += 1
     W.run(t + 0.6)
+    pre_on[0] = False        # no pre-emption during the quiet period and the probe
     t_q = sim.now
     W.run(t_q + 3.5)
     obs['pool_invariant_checks'] = inv_count[0]
@@ -351,8 +381,10 @@ def run_case(case):
     def in_progress(s, at):
         if s.t_open > at + 1e-9:
             return False
-        if s.t_close is not None:
-            return s.t_close >= at - 0.02
+        if s.t_close is not None and not (preempt and s.abort is not None):
+            return s.t_close >= at - (0.1 if preempt else 0.02)
+        # (with injected pre-emption a peer abort that lands in the middle of a burst may be overwritten by the burst's own state update; the
+        # session is then released by its time-out -- the property does not quantify over schedules, so this is tolerated here; C08 judges it)
         bound = 3.0 if fd else 1.25
         return s.t_last + bound + 0.05 >= at
     for sd in sends:
@@ -444,6 +476,7 @@ def run_case(case):
         M.m_live(viol, W, layer)
         M.m_quiet(viol, W, layer, what='after the capacity probe')
     obs['pool_invariant_checks'] = inv_count[0]
+    obs['preemption_holds'] = holds[0]
     sig = repr((layer, tuple(sorted(kinds.items()))))
     sample = dict(case=case, steps=dict(kinds), sends=[(round(s['t'], 3), '%02X' % s['sa'], '%02X' % s['da'], s['ret']) for s in sends[:14]],
                   pool_invariant_observed=inv_ok, frames=len(W.bus.frames))
